@@ -414,6 +414,27 @@ func c12(r *Report) {
 	})
 
 	r.Guard("C12.R5", "a filter applies its modifier when the condition holds and the else-branch otherwise", func() {
+		// a condition on a multi-valued part of a message holds when any of its values
+		// matches: the query-string condition looks at every value of the parameter, not
+		// at the first one (url.Values.Get)
+		if mt := w.Named("querystring", "Matcher"); mt != nil {
+			for _, mn := range []string{"MatchRequest", "MatchResponse"} {
+				fn := w.method(mt, mn)
+				if fn == nil || fn.Blocks == nil {
+					r.Undecided("(*M/querystring.Matcher)."+mn, "UNRESOLVED")
+					continue
+				}
+				first := false
+				for _, g := range w.staticReach(fn) {
+					r.Touch(g)
+					if len(calls(g, "(net/url.Values).Get")) > 0 {
+						first = true
+					}
+				}
+				r.Decide("callgraph", "(*M/querystring.Matcher)."+mn+" considers every value of the parameter", !first, "no first-value accessor is used", "the condition is evaluated on url.Values.Get, the first value only: a request whose matching value is a later occurrence of the parameter takes the else-branch", fn.Pos())
+			}
+		}
+
 		// each of the four branch setters of filter.Filter writes one slot, its own: the
 		// same slot on all its paths (nil argument or not), and no two setters share one
 		if ft := w.Named("filter", "Filter"); ft != nil {
@@ -524,6 +545,13 @@ func c12(r *Report) {
 	})
 
 	r.Guard("C12.R6", "a FIFO group applies children in listed order; the first error stops it unless it aggregates, then all run and every error is added once", func() {
+		// children enter a group through its Add methods, one node each: a parser that
+		// splices another group's children into the list changes whose error policy
+		// they run under
+		for _, fld := range []string{"reqmods", "resmods"} {
+			fieldWritersRule(r, "fifo", "Group", fld, map[string]bool{"(*M/fifo.Group).AddRequestModifier": true, "(*M/fifo.Group).AddResponseModifier": true, "M/fifo.NewGroup": true}, "children are added to (or spliced into) the group without going through AddRequestModifier / AddResponseModifier: a nested group's children end up under the outer group's error policy")
+		}
+
 		grp := w.Named("fifo", "Group")
 		for _, side := range []struct{ add, mod, field string }{{"AddRequestModifier", "ModifyRequest", "reqmods"}, {"AddResponseModifier", "ModifyResponse", "resmods"}} {
 			add := w.method(grp, side.add)
